@@ -779,6 +779,37 @@ func (c *Ctx) opIDRules(reach []*core.FuncInfo) {
 					}
 					return true
 				})
+				// a suffix prepared once in a local: suffix := "Mixin" + strconv.Itoa(mixIndex)
+				ast.Inspect(as.Rhs[0], func(m ast.Node) bool {
+					id, ok := m.(*ast.Ident)
+					if !ok {
+						return true
+					}
+					o := info.Uses[id]
+					if o == nil || c.P.Locals(fi).Params[o] {
+						return true
+					}
+					defs := c.P.Locals(fi).Defs[o]
+					if len(defs) != 1 || defs[0].Kind != core.DefAssign {
+						return true
+					}
+					ast.Inspect(defs[0].Expr, func(k ast.Node) bool {
+						if e, isE := k.(ast.Expr); isE {
+							if sv, isC := core.ConstString(info, e); isC && strings.Contains(sv, "Mixin") {
+								hasConst = true
+							}
+						}
+						if lid, isId := k.(*ast.Ident); isId {
+							if lo := info.Uses[lid]; lo != nil && c.P.Locals(fi).Params[lo] {
+								if b, isB := lo.Type().Underlying().(*types.Basic); isB && b.Info()&types.IsInteger != 0 {
+									hasIdx = true
+								}
+							}
+						}
+						return true
+					})
+					return true
+				})
 				if as.Tok == token.ADD_ASSIGN {
 					hasOld = true // id += suffix keeps the old id
 				}
